@@ -193,6 +193,19 @@ theorem run_frame_terminates_partial (step : State → Except Bus.Panic State) (
       rw [Nat.add_mul, Nat.one_mul]
     omega
 
+/-- the bound in steps: every step delivers at least one machine cycle, so a call of `run_frame` takes at most 17556
+steps (one per machine cycle of a frame period), instruction- or block-stepped -/
+theorem run_frame_steps_le (step : State → Except Bus.Panic State) (tr : Nat → State) (run : FrameRun step tr)
+    (hprog : ∀ c c', step c = .ok c' → c.delivered + 4 ≤ c'.delivered)
+    (n : Nat) (hn : 0 < n) (h : (tr (n - 1)).delivered < (tr 0).delivered + 70224) : n ≤ 17556 := by
+  have hge : ∀ i, (tr 0).delivered + 4 * i ≤ (tr i).delivered := by
+    intro i
+    induction i with
+    | zero => omega
+    | succ i ih => have := hprog _ _ (run.steps i); omega
+  have := hge (n - 1)
+  omega
+
 /-- the instances: both step functions of the emulator make progress, whatever the devices do -/
 theorem run_frame_terminates_update (dev : Dev) (tr : Nat → State) (run : FrameRun (update dev) tr)
     (frames : State → Nat) (t0 : Nat) (hlcd : ∀ i, frames (tr i) = (t0 + (tr i).delivered) / 70224) :
